@@ -116,7 +116,11 @@ AssignClauses(kind, a, b, o, r) ==
        IF \A k \in 1..Len(o.xs) : o.xs[k].good
        THEN If(~r.ok \/ b.items # Strip(o.xs), "C16:assignment_not_installed")
        ELSE If(r.ok \/ b # a, "C16:assignment_not_all_or_nothing")
-  ELSE {}   \* channel-mapped kinds: only the state clauses (alignment, uniqueness, stickiness) are demanded
+  ELSE IF kind = "FPCal" /\ Len(o.cs) = Len(o.xs) THEN
+       \* (channel, platform) pairs: an assignment that succeeds honoured every explicit channel
+       If(r.ok /\ (\A k \in 1..Len(o.xs) : o.xs[k].good)
+               /\ (b.chans # o.cs \/ b.items # Strip(o.xs)), "C15:explicit_channel_not_honoured")
+  ELSE {}   \* other channel-mapped kinds: only the state clauses (alignment, uniqueness, stickiness)
 
 \* sequential bulk operations: some prefix was applied; success means all of it
 RECURSIVE AddAll(_, _, _, _)
